@@ -40,7 +40,7 @@ def main():
         "setup_cmd": "./setup.sh",
         "hooks": {
             "guard": "TLSLITE_NG_VERIF",
-            "enable": "TLSLITE_NG_VERIF=1 is exported by ./check; all instrumentation is applied from outside by harness/instrument.py (run-time wrapping of methods of the classes imported from /repo's working tree); no hook code lives in /repo",
+            "enable": "TLSLITE_NG_VERIF=1 is exported by ./check; all instrumentation is applied from outside by harness/tracer.py, harness/puppet.py, harness/env.py and the per-property drivers (run-time wrapping of methods of the classes imported from /repo's working tree); no hook code lives in /repo",
             "baseline_off_cmd": "cd /repo && env -u TLSLITE_NG_VERIF /venv/bin/python -m pytest -ra -q -p no:cacheprovider --timeout=900 --continue-on-collection-errors",
             "source_commits": [],
             "add_only": True,
